@@ -83,31 +83,57 @@ pub fn synthetic_list(rng: &mut Rng, n: usize) -> Vec<String> {
         v.push(format!("-banner-$third-party,{}", t));
     }
     for i in 0..n {
-        let w = format!("w{}", rng.below(40));
-        match rng.below(14) {
-            0 => v.push(format!("/{}/ads/{}.", w, i)),
-            1 => v.push(format!("||{}.example.com^", w)),
-            2 => v.push(format!("||{}.example.net^$third-party", w)),
-            3 => v.push(format!("@@||{}.example.com/ok{}", w, i)),
-            4 => v.push(format!("*${},domain=site{}.com|shop{}.com", types[rng.below(types.len())], rng.below(6), rng.below(6))),
-            5 => v.push(format!("*${},domain=site{}.com", types[rng.below(types.len())], rng.below(6))),
-            6 => v.push(format!("/track{}^$tag=t{}", i, rng.below(3))),
-            7 => v.push(format!("||{}.example.org^$csp=script-src {}", w, i)),
-            8 => v.push(format!("||{}.example.org^$redirect=noop.js:{}", w, rng.below(5))),
-            9 => v.push(format!("##.ad-{}", i)),
-            10 => v.push(format!("###banner-{} > .x{}", rng.below(30), i)),
-            11 => v.push(format!("site{}.com,shop{}.*##.promo-{}", rng.below(6), rng.below(6), i)),
-            12 => v.push(format!("site{}.com#@#.ad-{}", rng.below(6), rng.below(n.max(1)))),
-            _ => match rng.below(5) {
-                0 => v.push(format!("site{}.com##.box{}:style(color: red)", rng.below(6), i)),
-                1 => v.push(format!("site{}.com##+js(sc{}, a{})", rng.below(6), rng.below(4), i)),
-                2 => v.push(format!("site{}.com#@#+js(sc{}, a{})", rng.below(6), rng.below(4), rng.below(n.max(1)))),
-                3 => v.push(format!("##div[data-ad=\"{}\"]", i)),
-                _ => v.push(format!("site{}.com##.rm{}:remove()", rng.below(6), i)),
-            },
-        }
+        let kind = rng.below(N_KINDS);
+        v.push(rule_of_kind(kind, rng, i, n));
     }
     v
+}
+
+const N_KINDS: usize = 26;
+
+/// one rule of the given kind (kinds cover every container of the serialized image)
+fn rule_of_kind(kind: usize, rng: &mut Rng, i: usize, n: usize) -> String {
+    let types = ["image", "script", "stylesheet", "font", "media", "object", "xmlhttprequest", "websocket", "ping", "other", "subdocument"];
+    let w = format!("w{}", rng.below(40));
+    match kind {
+        0 => format!("/{}/ads/{}.", w, i),
+        1 => format!("||{}.example.com^", w),
+        2 => format!("||{}.example.net^$third-party", w),
+        3 => format!("@@||{}.example.com/ok{}", w, i),
+        4 => format!("*${},domain=site{}.com|shop{}.com", types[rng.below(types.len())], rng.below(6), rng.below(6)),
+        5 => format!("*${},domain=site{}.com", types[rng.below(types.len())], rng.below(6)),
+        6 => format!("/track{}^$tag=t{}", i, rng.below(3)),
+        7 => format!("||{}.example.org^$csp=script-src {}", w, i),
+        8 => format!("||{}.example.org^$redirect=noop.js:{}", w, rng.below(5)),
+        9 => format!("##.ad-{}", i),
+        10 => format!("###banner-{} > .x{}", rng.below(30), i),
+        11 => format!("site{}.com,shop{}.*##.promo-{}", rng.below(6), rng.below(6), i),
+        12 => format!("site{}.com#@#.ad-{}", rng.below(6), rng.below(n.max(1))),
+        13 => format!("site{}.com##.box{}:style(color: red)", rng.below(6), i),
+        14 => format!("site{}.com##+js(sc{}, a{})", rng.below(6), rng.below(4), i),
+        15 => format!("site{}.com#@#+js(sc{}, a{})", rng.below(6), rng.below(4), rng.below(n.max(1))),
+        16 => format!("##div[data-ad=\"{}\"]", i),
+        17 => format!("site{}.com##.rm{}:remove()", rng.below(6), i),
+        // procedural / action rules and their exceptions (the exception containers are separate ones)
+        18 => format!("site{}.com##div:has-text(Sponsored {})", rng.below(6), i),
+        19 => format!("site{}.com#@#div:has-text(Sponsored {})", rng.below(6), rng.below(n.max(1))),
+        20 => format!("site{}.com#@#.rm{}:remove()", rng.below(6), rng.below(n.max(1))),
+        21 => format!("site{}.com#@#.box{}:style(color: red)", rng.below(6), rng.below(n.max(1))),
+        22 => format!("site{}.com##.at{}:remove-attr(href)", rng.below(6), i),
+        23 => format!("site{}.com##.cl{}:remove-class(c{})", rng.below(6), i, i),
+        24 => format!("@@||{}.example.com^$generichide", w),
+        _ => format!("||{}.example.com^$important,tag=t{}", w, rng.below(3)),
+    }
+}
+
+/// A small list drawn from only a few kinds of rules: most containers of the image are EMPTY, in
+/// every combination over the runs (a loader that derives one container from another, or treats
+/// "empty" as "absent", is only visible on such lists).
+pub fn sparse_list(rng: &mut Rng) -> Vec<String> {
+    let n_kinds = 1 + rng.below(3);
+    let kinds: Vec<usize> = (0..n_kinds).map(|_| rng.below(N_KINDS)).collect();
+    let n = 1 + rng.below(6);
+    (0..n).map(|i| { let k = kinds[rng.below(kinds.len())]; rule_of_kind(k, rng, i, n) }).collect()
 }
 
 fn sample_lines(all: &[String], rng: &mut Rng, n: usize) -> Vec<String> {
@@ -137,12 +163,17 @@ pub fn record_c09(out: &str, seed: u64, n_lists: usize, children: usize, workdir
     let exe = std::env::current_exe().unwrap();
     let mut samples = vec![];
     let mut distinct = HashSet::new();
-    for li in 0..n_lists {
-        let rules = match li % 3 {
+    // after the big lists, 25x as many sparse lists (in-process builds and reloads only)
+    let n_sparse = 25 * n_lists;
+    let mut sparse_done = 0u64;
+    for li in 0..(n_lists + n_sparse) {
+        let is_sparse = li >= n_lists;
+        let children = if is_sparse { 0 } else { children };
+        let rules = if is_sparse { sparse_done += 1; sparse_list(&mut rng) } else { match li % 3 {
             0 => { let k = 150 + rng.below(250); synthetic_list(&mut rng, k) }
             1 => sample_lines(&easy, &mut rng, 1500),
             _ => sample_lines(&ubo, &mut rng, 1500),
-        };
+        } };
         if rules.is_empty() {
             continue;
         }
@@ -201,7 +232,7 @@ pub fn record_c09(out: &str, seed: u64, n_lists: usize, children: usize, workdir
     }
     let events = w.n;
     w.finish();
-    println!("{}", json!({"events": events, "nontrivial": distinct.len(), "samples": samples}));
+    println!("{}", json!({"events": events, "nontrivial": distinct.len(), "samples": samples, "counters": {"sparse_lists": sparse_done}}));
 }
 
 // ---- C10 --------------------------------------------------------------------------------------------
